@@ -1820,6 +1820,9 @@ const FIXED: &[&str] = &[
     "use a::c;\nuse a::c::b::*;\nuse a::c::d;\nuse a::*;\nuse b as _;\n",
     "use a::b;\nuse a::b;\nuse a::{b, b};\nuse a::b as b;\n",
     "use a::{c::d, e};\nuse a::c;\nuse a::e::f;\nuse a::e;\n",
+    "use a::*;\nuse a::b::c::d;\nuse a::b::*;\nuse a::b::c::*;\n",
+    "use a::b::c::d;\nuse a::*;\nuse b::*;\nuse b::c::d::e as f;\nuse b::c::*;\n",
+    "use a::b::{c::d::e, *};\nuse a::b::c::*;\nuse a::{b::*, *};\n",
     "use a::{b::c, d::e};\nuse a::b;\nuse a::d;\nuse a::d::e::f;\n",
     "pub use a::b;\nuse a::c;\npub(crate) use a::d;\npub(in crate) use a::e;\npub use a::f;\n",
     "pub use a as x;\nuse a::b;\npub use a::c;\n",
